@@ -52,7 +52,22 @@ def _arrays(maxlen):
     return out
 
 
-def _call(sau, strategy, fill, x, q, via_dispatch):
+def _call(sau, strategy, fill, x, q, via_dispatch, form=0):
+    if form == 1:         # optional parameters positionally, in the documented order
+        if via_dispatch:
+            return sau.find_closest_element_indices_to_values(x, q, strategy, fill)
+        if strategy == "lower":
+            return sau.find_closest_lower_equal_element_indices_to_values(x, q, fill)
+        if strategy == "higher":
+            return sau.find_closest_higher_equal_element_indices_to_values(x, q, fill)
+    if form == 2:         # everything by its documented name
+        if via_dispatch:
+            return sau.find_closest_element_indices_to_values(fill_not_valid=fill, lookup=q, strategy=strategy, x=x)
+        if strategy == "lower":
+            return sau.find_closest_lower_equal_element_indices_to_values(lookup=q, x=x, fill_not_valid=fill)
+        if strategy == "higher":
+            return sau.find_closest_higher_equal_element_indices_to_values(fill_not_valid=fill, x=x, lookup=q)
+        return sau.find_closest_lower_or_higher_element_indices_to_values(lookup=q, x=x)
     if fill and (len(x) + len(q)) % 2 == 0:      # documented defaults: fill_not_valid=True, strategy='closest'
         if via_dispatch:
             return sau.find_closest_element_indices_to_values(x, q) if strategy == "closest" else \
@@ -70,11 +85,11 @@ def _call(sau, strategy, fill, x, q, via_dispatch):
     return sau.find_closest_lower_or_higher_element_indices_to_values(x, q)
 
 
-def _one(ctx, sau, case, x, q, strategy, fill, via_dispatch):
+def _one(ctx, sau, case, x, q, strategy, fill, via_dispatch, form=0):
     Slot.case = case
     before = ctx.monitors.get("search_post:" + strategy, 0)
     try:
-        _call(sau, strategy, fill, x, q, via_dispatch)
+        _call(sau, strategy, fill, x, q, via_dispatch, form)
     except Exception as e:
         ctx.exception("search:%s:raised" % strategy, case, e, {"x": x, "lookup": q, "fill": fill})
         ctx.judged()
@@ -101,9 +116,10 @@ def run_exhaustive(ctx, sau, spec):
             nontrivial = len(arr) == 1 or any(arr[0] < v < arr[-1] for v in qs)
             for ci, (strategy, fill) in enumerate(COMBOS):
                 via = (ai + qi + ci) % 2 == 1
+                form = (ai + 2 * qi + ci) % 3
                 case = {"kind": "exhaustive", "array": list(arr), "queries": list(qs), "strategy": strategy,
-                        "fill": fill, "dispatch": via, "x_ndarray": as_array, "seed": ctx.seed}
-                _one(ctx, sau, case, x, q, strategy, fill, via)
+                        "fill": fill, "dispatch": via, "x_ndarray": as_array, "seed": ctx.seed, "form": form}
+                _one(ctx, sau, case, x, q, strategy, fill, via, form)
                 if nontrivial:
                     ctx.nontriv("ex", arr, qs, strategy, fill)
                 ctx.count("exhaustive:%s:%s" % (strategy, "fill" if fill else "nofill"))
@@ -122,7 +138,14 @@ def gen_random(rng):
         k = min(n, top // 3)
         x = np.sort(rng.choice(np.arange(1, top, max(1, top // 400)), size=max(1, min(k, 200)), replace=False)).astype(dt)
         qs = np.sort(rng.integers(0, top, int(rng.integers(1, 13))))
-        qs = qs.astype(dt) if rng.integers(0, 2) else qs.astype(np.int64)
+        if rng.integers(0, 2):
+            return x, qs.astype(dt)
+        qs = qs.astype(np.int64)
+        if rng.integers(0, 2):
+            # plain integers that the array's own storage type cannot hold: below zero and above its largest value
+            far = np.array([-int(rng.integers(1, top)), int(np.iinfo(dt).max) + int(rng.integers(1, 1000))
+                            if dt != np.uint64 else 2 ** 62], dtype=np.int64)
+            qs = np.sort(np.concatenate([qs, far[:int(rng.integers(1, 3))]]))
         return x, qs
     if style == 4:
         # int64 nanosecond timestamps: values beyond 2**53, gaps and query offsets below the float64 spacing there
@@ -143,9 +166,11 @@ def gen_random(rng):
     qs = []
     k = int(rng.integers(1, 13))
     for _ in range(k):
-        t = int(rng.integers(0, 8))
+        t = int(rng.integers(0, 10))
         i = int(rng.integers(0, n))
-        if t == 0:
+        if t >= 8:
+            qs.append(-np.inf if t == 8 else np.inf)        # "beyond the elements", as far as it goes
+        elif t == 0:
             qs.append(x[i])
         elif t == 1:
             qs.append(np.nextafter(x[i], np.inf))
@@ -175,8 +200,9 @@ def run_random_case(ctx, sau, kind, idx):
     cont = int(rng.integers(0, 3))
     xx = x if cont != 1 else [v.item() for v in x]
     qq = qs if cont != 2 else [v.item() for v in qs]
+    form = int(rng.integers(0, 3))
     case = ctx.case_id(kind, idx, strategy=strategy, fill=fill, dispatch=via)
-    _one(ctx, sau, case, xx, qq, strategy, fill, via)
+    _one(ctx, sau, case, xx, qq, strategy, fill, via, form)
     if len(x) == 1 or np.any((qs > x[0]) & (qs < x[-1])):
         ctx.nontriv("rnd", idx, strategy, fill)
     ctx.count("random:%s:%s" % (strategy, "fill" if fill else "nofill"))
@@ -208,7 +234,7 @@ def replay(ctx, case):
     Slot.ctx = ctx
     if case["kind"] == "exhaustive":
         x = np.array(case["array"]) if case.get("x_ndarray") else list(case["array"])
-        _one(ctx, sau, case, x, list(case["queries"]), case["strategy"], case["fill"], case["dispatch"])
+        _one(ctx, sau, case, x, list(case["queries"]), case["strategy"], case["fill"], case["dispatch"], case.get("form", 0))
     else:
         run_random_case(ctx, sau, case["kind"], case["idx"])
     inst.uninstall()
